@@ -1,4 +1,4 @@
 From Coq Require Import List Arith.
 From BQ Require Import wf.IsCompat.
 From Coq Require Extraction ExtrOcamlBasic.
-Extraction "wfcompat_model.ml" is_compatible is_respecting lt_respecting spec monotone_on.
+Extraction "wfcompat_model.ml" is_compatible is_compatible_ph is_respecting lt_respecting spec monotone_on.
